@@ -47,8 +47,26 @@ class SStr(Sym):
 
 
 class SReal(Sym):
-    """A python float treated as a mathematical real (declared assumption)."""
+    """A python float.  Mode *real*: treated as a mathematical real (declared assumption).  Mode
+    *opaque*: `t` is the (exact, rational) value of a finite float and `fin` says whether the float
+    is finite; results of arithmetic are uninterpreted (see models.float_op)."""
+    __slots__ = ('t', 'fin')
     pytype = float
+
+    def __init__(self, t, fin=None):
+        self.t = t
+        self.fin = fin
+
+    def __eq__(self, other):
+        return isinstance(other, SReal) and other.t == self.t and other.fin == self.fin
+
+    def __hash__(self):
+        return hash(('SReal', self.t, self.fin))
+
+
+class SComplex(Sym):
+    """A python complex number produced by float ** float (opaque)."""
+    pytype = complex
 
 
 class SDec(Sym):
@@ -111,6 +129,6 @@ def dec_term(ctx, n):
     return t
 
 
-DEC_RE = ('(re.union (str.to_re "0") (re.++ (re.range "1" "9") (re.* (re.range "0" "9"))))')
+DEC_RE = tm.register_re('(re.union (str.to_re "0") (re.++ (re.range "1" "9") (re.* (re.range "0" "9"))))', r'0|[1-9][0-9]*')
 
 REAL_FUNS = {'dec': lambda n: str(n), 'undec': lambda s: int(s), 'upper': lambda s: s.upper()}
